@@ -74,8 +74,36 @@ def run(ctx, case):
         except Exception:
             ctx.counters["c17|build_failed"] += 1
             return
-    for m in maps_of(obj)[:3]:
+    ms = maps_of(obj)[:3]
+    for m in ms:
         try:
             full_ln(m, case["gap"], case["thres"])
         except Exception:
             pass
+    if ctx.cur_k is not None and ctx.cur_k % 3 == 1:
+        # the same chart asked again with one argument changed at a time
+        for m in ms[:1]:
+            for g, t in ((case["gap"], case["thres"] + 60), (case["gap"] + 25, case["thres"]), (case["gap"], case["thres"])):
+                try:
+                    full_ln(m, g, t)
+                except Exception:
+                    pass
+    if ctx.cur_k is not None and ctx.cur_k % 3 == 0:
+        # the same chart objects edited in place (same lengths, other times / columns / kinds of gap) and asked again,
+        # then the result of a generation fed back in: nothing may be remembered from the first call
+        for m in ms:
+            with ctx.quiet():
+                try:
+                    if len(m.hits):
+                        m.hits.offset = m.hits.offset.to_numpy()[::-1] + 37.0
+                    if len(m.holds):
+                        m.holds.length = m.holds.length.to_numpy() * 0.5
+                        m.holds.column = m.holds.column.to_numpy()[::-1]
+                except Exception:
+                    ctx.counters["c17|edit_failed"] += 1
+                    continue
+            try:
+                again = full_ln(m, case["thres"], case["gap"])
+                full_ln(again, case["gap"], case["thres"])
+            except Exception:
+                pass
